@@ -1,4 +1,5 @@
 import Litestream.Model.Vfs
+import Litestream.Gen.Vfs
 /-!
 C18 — a VFS read replica serves the same pages as a full restore.
 The model (Model/Vfs.lean) mirrors vfs.go including its defects; the full-strength statements are
@@ -161,5 +162,14 @@ theorem poll_idle (r : Replica) (v : Vfs)
   · simp [ht]
   · simp [ht]
     omega
+
+
+/-- (T) tie, regenerated from vfs.go on every run (translator fact `Vfs`): in `pollReplicaClient` the
+    `targetTime` test sits inside the `f.mu` critical section that applies the polled updates — the
+    model's `pollReplica` treats "if time travel is active then leave the state unchanged else apply"
+    as one atomic step, which is only faithful when check and apply cannot be separated by a
+    concurrent `SetTargetTime`. -/
+theorem gen_poll_target_check_atomic : Gen.vfsPollTargetCheckAtomic = true := by
+  first | decide | rfl
 
 end Litestream.C18
